@@ -1,5 +1,6 @@
 CONSTANTS
   N = 5
+  EdgePoolCodes = {12, 23, 34, 45, 15, 13, 24, 35}
 SPECIFICATION Spec
 INVARIANTS Acyclic Sound Complete
 CHECK_DEADLOCK FALSE
